@@ -1259,3 +1259,10 @@ def m_checked_abs(ctx):
 
 # (the generic "total integer function" pattern above would match first: put the precise model in front)
 M.patterns.insert(0, (__import__("re").compile(r"^core::num::<impl i(\d+|size)>::checked_abs$"), m_checked_abs))
+
+
+@M.reg("core::iter::sources::once::once")
+def m_iter_once(ctx):
+    cell = ("once",) + ctx.site
+    ctx.S.cells[cell] = Arr([ctx.args[0]])
+    return Iter("copied", Iter("slice", Ref(cell, (), False)), None, None, True)
